@@ -2,7 +2,7 @@
 import re
 
 from ..mir import MissingAnchor, sym_contains, norm
-from ..rules import render, aggregates, last_seg, bool_switches
+from ..rules import render, aggregates, last_seg, bool_switches, compares
 from .. import proto, witness
 
 EXPLANATION = ("Static rules over the resolved MIR plus type-level witnesses: PROTO/SIBLING (every entry point threads all four "
@@ -170,6 +170,33 @@ def rule_decoder(ctx, fx, config):
                       "the decoder is forced to a fixed encoding", config, ctx.where(f, b))
 
 
+def rule_chunking(ctx, fx, config):
+    """CHUNK: the reader adapter assembles one character from however many reads it takes.  `Read::read` may return fewer
+    bytes than asked for (a BufReader hands out only what is buffered), so every partial read is inside a loop that continues
+    until the character is complete; reads that must be complete use read_exact."""
+    f = fx.fn("<buffered_input::ChunkedChars as std::iter::Iterator>::next")
+    ctx.saw(f)
+    loops = f.sccs()
+    partial = [b for b, t in f.calls() if fx.callee_decl(t).endswith("io::Read::read")]
+    exact = [b for b, t in f.calls() if fx.callee_decl(t).endswith("io::Read::read_exact")]
+    ctx.floor("CHUNK.reads", len(partial) + len(exact), 2, config)
+    for k, b in enumerate(partial, 1):
+        inloop = [c for c in loops if b in c]
+        okc = False
+        for comp in inloop:
+            # the loop's continuation test compares the accumulated count with the number of bytes still needed
+            for c in compares(f):
+                if c["block"] in comp and c["op"] in ("Lt", "Le", "Gt", "Ge", "Ne") and any("needed" in x for x in (c["rl"], c["rr"])) and any(x == "read" for x in (c["rl"], c["rr"])):
+                    okc = True
+        ctx.check(okc, "CHUNK", "C09:CHUNK:partial-read-in-loop#%d" % k, "a short read of continuation bytes is retried until the character is complete",
+                  "ChunkedChars::next calls Read::read outside a `while read < needed - 1` loop: a multi-byte character whose bytes arrive in two buffer refills is reported as truncated, so from_reader disagrees with from_str depending on chunking", config, ctx.where(f, b))
+        # the destination slice starts after the bytes already received
+        t = f.blocks[b]["term"]
+        dst = render(f.sym_operand(t["args"][1]))
+        ctx.check("Add(1, read)" in dst.replace("Add(read, 1)", "Add(1, read)") and "needed" in dst, "CHUNK", "C09:CHUNK:partial-read-offset#%d" % k, "each retry writes behind the bytes already received (buf[1 + read..needed])",
+                  "the continuation read does not target buf[1 + read..needed] (%s): bytes of a split character are overwritten" % dst[:100], config, ctx.where(f, b))
+
+
 def rule_borrow(ctx, fx, config):
     n = 0
     for f in fx.fns.values():
@@ -246,6 +273,7 @@ def run(ctx):
         rule_bom(ctx, fx, config)
         rule_slice(ctx, fx, config)
         rule_decoder(ctx, fx, config)
+        rule_chunking(ctx, fx, config)
         rule_borrow(ctx, fx, config)
         rule_signature(ctx, fx, config)
         from . import C11
